@@ -491,6 +491,19 @@ def _gen_cases(tier):
             out.append((f"lone:U+{ord(c):04X}:{kind}:between", row(mi("x"), tkn(), mn("3"))))
             out.append((f"lone:U+{ord(c):04X}:{kind}:numerator", el("mfrac", tkn(), mn("2"))))
             out.append((f"lone:U+{ord(c):04X}:{kind}:exponent", el("msup", mi("x"), tkn())))
+    # the same characters MIXED with ordinary text inside one token (f', y″z, ′+, 2., x|, a-b, …): the passes that look for these
+    # characters test "contains", so a token that merely contains one reaches code written for tokens that consist of them -
+    # alone, between operands, and directly after a token that consists of the character
+    for c in specials_:
+        if c in "0xπ":
+            continue
+        for kind in ("mi", "mn", "mo", "mtext"):
+            for pn, txt in (("pre", c + "z"), ("post", "f" + c), ("mid", "y" + c + "z"), ("post2", "f" + c + c), ("digit", "4" + c)):
+                tkn = lambda: terms.T(kind, text=txt)
+                out.append((f"mixed:U+{ord(c):04X}:{kind}:{pn}:alone", row(tkn())))
+                out.append((f"mixed:U+{ord(c):04X}:{kind}:{pn}:between", row(mi("x"), mo("+"), tkn(), mo("="), mn("3"))))
+                out.append((f"mixed:U+{ord(c):04X}:{kind}:{pn}:after-same", row(mi("x"), terms.T("mo", text=c), tkn())))
+                out.append((f"mixed:U+{ord(c):04X}:{kind}:{pn}:exponent", el("msup", mi("x"), tkn())))
     out += merge_cases()
     out += test_cases()
     # level 1: one deviation at every position
